@@ -61,7 +61,7 @@ func (sw *Writer) WriteEvent(w http.ResponseWriter, event Event) error {
 	if _, err := fmt.Fprintf(w, "id: %s\n", event.ID); err != nil {
 		return fmt.Errorf("failed to write SSE event ID: %w", err)
 	}
-	verifEvent("sse.write.id", w)
+	verifEvent("sse.write.id", w, event.Data)
 
 	// Write event data with proper SSE formatting
 	// Split data by newlines and prefix each line with 'data: '
@@ -74,13 +74,13 @@ func (sw *Writer) WriteEvent(w http.ResponseWriter, event Event) error {
 			}
 		}
 	}
-	verifEvent("sse.write.data", w)
+	verifEvent("sse.write.data", w, event.Data)
 	// End of event (double newline)
 	if _, err := fmt.Fprint(w, "\n"); err != nil {
 		return fmt.Errorf("failed to write SSE event terminator: %w", err)
 	}
 
-	verifEvent("sse.write.end", w)
+	verifEvent("sse.write.end", w, event.Data)
 	// Try to flush the response if the writer supports it
 	if flusher, ok := w.(http.Flusher); ok {
 		flusher.Flush()
